@@ -402,6 +402,16 @@ var settingsLines = []string{"ResetOnLogon=", "ResetOnLogon=Y", "ResetOnLogout=n
 	"ResendRequestChunkSize=-1", "TimeStampPrecision=", "TimeStampPrecision=PICOS", "DataDictionary=", "DataDictionary=/nonexistent.xml", "ResetSeqTime=", "ResetSeqTime=12:00", "DynamicSessions=Y", "ConnectionType=acceptor", "ConnectionType=", "[DEFAULT]", "[SESSION]", "[default]", "[Session]", "[SESSION] ", "[OTHER]", "BeginString=FIX.4.2", "BeginString=FIX.9.9", "BeginString=FIXT.1.1", "SenderCompID=A", "TargetCompID=B",
 	"SenderCompID=", "=value", "noequals", "key=val=ue", "# comment", "", "   ", "SessionQualifier=q", "HeartBtInt=30", "[", "]", "[SESSION", "\tKey = spaced ", "TargetCompID=B\r", "ConnectionType=initiator"}
 
+// settingsWellTyped: well-typed lines for every key a session or an engine reads - a loader must
+// cope with any subset of them (a key present without the companions it is usually written with).
+var settingsWellTyped = []string{"ResetSeqTime=12:00:00", "StartTime=09:00:00", "EndTime=17:00:00", "StartDay=Mon", "EndDay=Fri", "Weekdays=Mon,Tue,Sun", "TimeZone=America/New_York", "TimeZone=UTC",
+	"TimeStampPrecision=MICROS", "ResetOnLogon=Y", "RefreshOnLogon=Y", "ResetOnLogout=Y", "ResetOnDisconnect=Y", "RejectInvalidMessage=N", "AllowUnknownMsgFields=Y", "ValidateUserDefinedFields=N", "ValidateFieldsOutOfOrder=N",
+	"ValidateFieldsHaveValues=N", "CheckLatency=N", "MaxLatency=120", "InChanCapacity=10", "ReconnectInterval=5", "LogoutTimeout=2", "LogonTimeout=10", "HeartBtIntOverride=Y", "SocketTimeout=5s", "ProxyType=socks", "ProxyHost=127.0.0.1",
+	"ProxyPort=1080", "ProxyUser=u", "ProxyPassword=p", "SocketAcceptHost=127.0.0.1", "UseTCPProxy=Y", "DynamicSessions=Y", "DynamicQualifier=Y", "SocketPrivateKeyFile=/nonexistent.key", "SocketCertificateFile=/nonexistent.crt",
+	"SocketCAFile=/nonexistent.ca", "SocketInsecureSkipVerify=Y", "SocketServerName=peer", "SocketMinimumTLSVersion=TLS12", "SocketMinimumTLSVersion=SSL30", "SocketUseSSL=Y", "PersistMessages=N", "ResendRequestChunkSize=5",
+	"EnableLastMsgSeqNumProcessed=Y", "EnableNextExpectedMsgSeqNum=Y", "SenderSubID=ss", "TargetSubID=ts", "SenderLocationID=sl", "TargetLocationID=tl", "SessionQualifier=q2", "DefaultApplVerID=FIX.5.0SP2", "DefaultApplVerID=7",
+	"DataDictionary=" + specDir + "FIX44.xml", "TransportDataDictionary=" + specDir + "FIXT11.xml", "AppDataDictionary=" + specDir + "FIX50SP2.xml"}
+
 func TestC09_Settings(t *testing.T) {
 	c := c09()
 	rapid.Check(t, func(t *rapid.T) {
@@ -409,9 +419,12 @@ func TestC09_Settings(t *testing.T) {
 			n := rapid.IntRange(0, 14).Draw(t, "nlines")
 			var lines []string
 			for i := 0; i < n; i++ {
-				if rapid.IntRange(0, 6).Draw(t, "free") == 0 {
+				switch rapid.IntRange(0, 6).Draw(t, "free") {
+				case 0:
 					lines = append(lines, rapid.StringMatching(`[\[\]=#A-Za-z .]{0,12}`).Draw(t, "line"))
-				} else {
+				case 1, 2, 3:
+					lines = append(lines, rapid.SampledFrom(settingsWellTyped).Draw(t, "line"))
+				default:
 					lines = append(lines, rapid.SampledFrom(settingsLines).Draw(t, "line"))
 				}
 			}
